@@ -125,6 +125,18 @@ Agreement == \A i, j \in Honest : (xs[i].blockDone /\ xs[j].blockDone) => Node!C
 \* C02 on every node
 Certificates == \A i \in Honest : xs[i].blockDone =>
    Cardinality({k \in 1..N : xs[i].cm[k].k = "cm" /\ xs[i].cm[k].v = xs[i].v /\ xs[i].cm[k].s = xs[i].vals[k] /\ xs[i].cm[k].b = Node!CtxBlock(xs[i])}) >= M
+\* Refinement of spec/AgreementAbs.tla (the abstract commit/accept protocol PROVED to keep Agreement for every validator count).
+\* The mapping: cm[i] = what validator i's own Commit slot holds, acc[i] = the block it handed over.  The two obligations are the
+\* abstract actions' guards: G1 - a step changes a validator's signed set only from "nothing" (AbsOneCommit, an action property);
+\* G2 - a validator that accepted b is backed, in one view, by M validators counting only honest ones that REALLY signed
+\* <<view, b>> plus the Byzantine ones (AbsCertificate; stronger than Certificates, which looks at the acceptor's tables only).
+\* With both, every step of this closed composition is a step (or a stutter) of AgreementAbs!Next, so the theorem transfers.
+AbsCm(i) == IF xs[i].started /\ xs[i].cm[i + 1].k = "cm" THEN {<<xs[i].cm[i + 1].v, xs[i].cm[i + 1].b>>} ELSE {}
+AbsAcc(i) == IF xs[i].started /\ xs[i].blockDone THEN {Node!CtxBlock(xs[i])} ELSE {}
+AbsChosen(b) == \E v \in Views : Cardinality(Byz \cup {j \in Honest : <<v, b>> \in AbsCm(j)}) >= M
+AbsCertificate == \A i \in Honest : \A b \in AbsAcc(i) : AbsChosen(b)
+AbsOneCommit == [][\A i \in Honest : AbsCm(i) # {} => AbsCm(i)' = AbsCm(i)]_vars
+
 \* somebody decides at all (used negated, to make TLC exhibit a deciding behaviour: non-vacuity of Agreement)
 NobodyDecides == \A i \in Honest : ~xs[i].blockDone
 TwoDecide == Cardinality({i \in Honest : xs[i].blockDone}) < 2
